@@ -174,11 +174,12 @@ def c_tag(ctx, case):
         for e, t in zip(exprs, tagged):
             ctx.case(None)
             ctx.count("value_compared")
-            want, faults, _ = refsem.expected(e, env)
+            with refsem.exact():    # tagging may regroup a sum: equal over exact arithmetic
+                want, faults, _ = refsem.expected(e, env)
+                got = refsem.outcome(lambda: refsem.ev(t, env)) if want[0] == "v" else None
             if want[0] != "v":
                 ctx.count("input_undefined")
                 continue
-            got = refsem.outcome(lambda: refsem.ev(t, env))
             if not refsem.consistent(got, want, faults):
                 ctx.fail("C12.tag", case, f"value:{got[0]}!={want[0]}",
                          f"tagging changed the value: {e}  ->  {t}; env x={env['x']} y={env['y']} "
@@ -348,10 +349,11 @@ def c_tagger(ctx, case):
                 {"x": F(0), "y": F(1), "z": F(-3), "f": lambda a: a - 1}):
         ctx.case(None)
         ctx.count("tagger_value_compared")
-        want, faults, _ = refsem.expected(e, env)
+        with refsem.exact():
+            want, faults, _ = refsem.expected(e, env)
+            got = refsem.outcome(lambda: refsem.ev(t, env)) if want[0] == "v" else None
         if want[0] != "v":
             continue    # "returns expressions of equal value" presupposes the input has one
-        got = refsem.outcome(lambda: refsem.ev(t, env))
         if not refsem.consistent(got, want, faults):
             ctx.fail("C12.tagger", case, "tagger-value",
                      f"CSETagMapper changed the value of {e}: {t}; {short(got)} vs {short(want)}")
